@@ -312,6 +312,12 @@ func (mgr *GCMgr) gc(bkt *Bucket, startChunkID, endChunkID int, merge bool) {
 				fileState.NumNotInHtree++
 				if gc.Begin > 0 && rec.Payload.Ver < 0 {
 					isNewest = true
+				} else if hintit, _ := bkt.hints.collisions.get(ki.KeyHash, ki.StringKey); hintit != nil && hintit.Pos == oldPos {
+					// the tree entry of a hash shared by several keys may be gone
+					// (removed by a sibling's delete) while the collision table
+					// still serves this key from exactly this record
+					isNewest = true
+					meta.ValueHash = hintit.Vhash
 				}
 			}
 
